@@ -46,6 +46,8 @@ def cfgs(tier):
         dict(base, sweeper='imex_1st_order', M=[2], NP=2, maxiter=2, restol=-1.0, blocks=2),
         # stopping by increment: a convergence controller that registers extra level status variables (increment, embedded estimate) is loaded
         dict(base, M=[2], NP=1, maxiter=2, restol=-1.0, e_tol=2e-2, blocks=2),
+        # a user hook with an extended entry class
+        dict(base, M=[2], NP=2, maxiter=2, restol=-1.0, blocks=2, exthook=True),
     ]
     if tier != 'quick':
         out += [
@@ -107,7 +109,8 @@ def flat_stats(stats):
     for k, v in stats.items():
         if str(k.type).startswith('timing') or k.type in ('c19_extra',):
             continue
-        key = (k.process, float(k.time) if k.time is not None else None, k.level, k.iter, k.sweep, k.type, k.num_restarts)
+        # every field of the key (user hooks may extend the entry class)
+        key = tuple((float(getattr(k, f)) if f == 'time' and getattr(k, f) is not None else getattr(k, f)) for f in k._fields if f != 'process_sweeper') + (len(k._fields),)
         out[key] = v
     return out
 
